@@ -176,6 +176,9 @@ func (e *Eval) Prepare(flags ...[]byte) error {
 	//
 	if optimize {
 		e.environment.Set("OPTIMIZE", &object.Boolean{Value: true})
+	} else {
+		// (an earlier Prepare may have left the variable behind)
+		e.environment.Delete("OPTIMIZE")
 	}
 
 	//
